@@ -185,10 +185,27 @@ fn gen_one(ps: &ProgSpec, o: &GenOpts) -> String {
         };
         write!(
             e,
-            ",\"file\":{},\"vars\":{},\"cone\":{},\"disjuncts\":{},\"bytes\":{}}}",
+            ",\"file\":{},\"vars\":{},\"cone\":{},\"disjuncts\":{},\"bytes\":{}",
             jstr(&file), st.vars, st.nodes_in_cone, st.disjuncts, st.bytes
         )
         .unwrap();
+        // taint query: only for "output bin of one chunk" goals, general variant only
+        if o.variant == Variant::General && !o.perturb && q.goals.iter().all(|g| g.rhs.own_labels().is_some()) {
+            let mut lhs = vec![];
+            let mut own = vec![];
+            for g in &q.goals {
+                let labels = g.rhs.own_labels().unwrap();
+                let ix: Vec<u32> = with(|c| labels.iter().filter_map(|l| c.input_ix.get(l).copied()).collect());
+                lhs.push(g.lhs.re);
+                own.push(ix.clone());
+                lhs.push(g.lhs.im);
+                own.push(ix);
+            }
+            let tfile = format!("{}/{}.q{}.taint.smt2", o.out, ps.file_id(), qi);
+            let ts = smt::emit_taint(&lhs, &own, &tfile);
+            write!(e, ",\"taint_file\":{},\"taint_vars\":{}", jstr(&tfile), ts.vars).unwrap();
+        }
+        e.push('}');
         qjs.push(e);
     }
     write!(js, ",\"queries\":[{}]", qjs.join(",")).unwrap();
@@ -329,6 +346,43 @@ fn replay(ps: &ProgSpec, seed: u64, max_m_bits: u32, qname: &str, witness: &Hash
     js
 }
 
+/// Native replay of a taint witness: the labelled inputs are NaN, everything else finite; a goal
+/// whose own chunk is clean but whose output is non-finite reproduces the dependence.
+fn nanreplay(ps: &ProgSpec, qname: &str, tainted: &std::collections::HashSet<String>) -> String {
+    let mut psf = ps.clone();
+    psf.params.insert("planner".into(), "scalar".into());
+    let mut f = Facts::default();
+    let t = tainted.clone();
+    let src = move |l: &str| -> f64 {
+        if t.contains(l) {
+            f64::NAN
+        } else {
+            1.0 + (l.len() as f64) * 0.125
+        }
+    };
+    match guarded(|| prog::run::<f64>(&psf, &src, &mut f)) {
+        Outcome::Ok(qs) => {
+            let mut bad = vec![];
+            let mut checked = 0;
+            for q in qs.iter().filter(|q| q.name == qname) {
+                for g in &q.goals {
+                    if let Some(own) = g.rhs.own_labels() {
+                        if own.iter().all(|l| !tainted.contains(l)) {
+                            checked += 1;
+                            if !(g.lhs.re.is_finite() && g.lhs.im.is_finite()) {
+                                bad.push(g.name.clone());
+                            }
+                        }
+                    }
+                }
+            }
+            format!("{{\"status\":\"ok\",\"goals_with_clean_chunk\":{},\"non_finite_outputs\":{},\"first\":{}}}", checked, bad.len(), jstr(bad.first().map(|s| s.as_str()).unwrap_or("")))
+        }
+        Outcome::Abort(r) => format!("{{\"status\":\"abort\",\"reason\":{}}}", jstr(&r)),
+        Outcome::Panic(r) => format!("{{\"status\":\"panic\",\"reason\":{}}}", jstr(&r)),
+    }
+}
+
 /// Run the driver natively with f64 only (used to reproduce panics found while planning/processing).
 fn native(ps: &ProgSpec) -> String {
     let mut f = Facts::default();
@@ -401,6 +455,18 @@ fn main() {
                 }
             }
             println!("{}", replay(&ps, o.seed, o.max_m_bits, &query.unwrap_or_default(), &w));
+        }
+        "nanreplay" => {
+            let ps = ProgSpec::parse(&specs[0]);
+            let mut t = std::collections::HashSet::new();
+            if let Some(f) = witness_file {
+                for l in std::fs::read_to_string(f).unwrap().lines() {
+                    if let Some(k) = l.split_whitespace().next() {
+                        t.insert(k.to_string());
+                    }
+                }
+            }
+            println!("{}", nanreplay(&ps, &query.unwrap_or_default(), &t));
         }
         "native" => {
             let ps = ProgSpec::parse(&specs[0]);
